@@ -354,12 +354,11 @@ func (sc SimpleColumn) WriteTo(store ReadOnlyFactStore, w io.Writer) error {
 // ReadPred reads matching facts for a single predicate with arity > 0.
 // len(filter) must match p.Arity.
 func (SimpleColumn) readPred(scanner *bufio.Scanner, p ast.PredicateSym, numFacts int, filter []ast.BaseTerm, cb func(args []ast.BaseTerm) error) error {
-	args := make([][]ast.BaseTerm, numFacts)
+	// Rows are allocated while the first column is read, so that a corrupted
+	// header cannot make us allocate more than the input provides.
+	var args [][]ast.BaseTerm
 	numSkip := 0
-	skip := make([]bool, numFacts)
-	for i := 0; i < numFacts; i++ {
-		args[i] = make([]ast.BaseTerm, p.Arity)
-	}
+	var skip []bool
 	// TODO: It would be smarter to load and traverse those columns that
 	// have a filter present.
 	for j := 0; j < p.Arity; j++ {
@@ -367,10 +366,17 @@ func (SimpleColumn) readPred(scanner *bufio.Scanner, p ast.PredicateSym, numFact
 			if ok := scanner.Scan(); !ok {
 				return fmt.Errorf("scanning pred %v column %d fact %d: %w", p, j, i, ErrCouldNotRead)
 			}
+			if j == 0 {
+				args = append(args, make([]ast.BaseTerm, p.Arity))
+				skip = append(skip, false)
+			}
 			if skip[i] { // Fact does not match anyway.
 				continue
 			}
 			text := scanner.Text()
+			if text == "" {
+				return fmt.Errorf("empty line pred %v column %d fact %d: %w", p, j, i, ErrCouldNotRead)
+			}
 			if text[0] == '/' {
 				var err error
 				text, err = percentUnescape(text)
@@ -444,6 +450,9 @@ func readHeader(scanner *bufio.Scanner) ([]ast.PredicateSym, []int, error) {
 		}
 		if arity < 0 || arity > maxArity {
 			return nil, nil, fmt.Errorf("for predicate %v: %w", name, ErrUnsupportedArity)
+		}
+		if numFacts < 0 {
+			return nil, nil, fmt.Errorf("for predicate %v: negative number of facts: %w", name, ErrWrongArgument)
 		}
 		if numFacts > maxFactsPerPredicate {
 			return nil, nil, fmt.Errorf("for predicate %v: %w", name, ErrTooManyFacts)
